@@ -231,8 +231,54 @@ def h_chunks(n: int, c: int):
     assert ok
 
 
+# ------------------------------------------------------------------------------------------------ E4: the REAL Project constructor, configuration options
+def _config_case(th, cached, njobs):
+    """a project opened through the real constructor whose configuration file sets the cache-miss warning threshold (hand-edited or written
+    by `signac config`): queries answer the same with a fresh, a stale and without a cache file"""
+    import os, shutil
+    import signac
+    root = "/dev/shm/vf_c08cfg_%d" % os.getpid()
+    shutil.rmtree(root, ignore_errors=True)
+    problems = []
+    try:
+        pr = signac.init_project(root)
+        for i in range(njobs):
+            pr.open_job(U[i]).init()
+        if cached == 1:
+            pr.update_cache()
+        elif cached == 2:
+            pr.update_cache()
+            pr.open_job(U[njobs]).init()      # the cache file is stale by one job
+            njobs += 1
+        if th is not None:
+            with open(os.path.join(root, ".signac", "config"), "a") as f:
+                f.write("statepoint_cache_miss_warning_threshold = %s\n" % th)
+        want = _expected(set(range(njobs)))
+        try:
+            got = _observe(signac.get_project(root, search=False))
+        except Exception as e:  # noqa
+            problems.append(("queries raised", type(e).__name__, str(e)[:100]))
+            got = want
+        if got != want:
+            problems.append(("observations differ", {k: (got.get(k), want.get(k)) for k in set(got) | set(want) if got.get(k) != want.get(k)}))
+    finally:
+        shutil.rmtree(root, ignore_errors=True)
+    return problems
+
+
+def h_config(th: int, cached: int, njobs: int):
+    assert 0 <= th <= 4 and 0 <= cached <= 2 and 1 <= njobs <= 3
+    fresh_path()
+    th, cached, njobs = pick([None, 0, 1, 2, 500], th), ci(cached, 0, 2), ci(njobs, 1, 3)
+    with nt():
+        problems = _config_case(th, cached, njobs)
+    reached()
+    assert not problems
+
+
 HARNESSES = [
     dict(name="h_chunks", timeout=(300, 600)),
+    dict(name="h_config", timeout=(300, 600), unblock=True),
     dict(name="h_hist", twin="h_hist__reach", timeout=(900, 3000), parts=(15, 15)),
 ]
 
